@@ -6,6 +6,8 @@ import Fips204.Lemmas.SpecCodec
 import Fips204.Lemmas.Samplers
 import Fips204.Props.C15
 import Fips204.Lemmas.KeygenOk
+import Fips204.Lemmas.SignOk
+import Fips204.Lemmas.SpecEncode
 namespace Fips204.Impl
 open Fips204 Fips204.Gen
 
@@ -318,5 +320,60 @@ theorem expandS_is_algorithm_33 (m : Mode) (O : Oracles) (hO : OracleOk O) (p : 
         (fun r hr' => ⟨true, isInRange_true m r p.eta p.eta eta0 (r2 r hr'), rfl⟩) s2 (fun a ha => ha)
       have hall2 : bs2.all id = true := by rw [List.all_eq_true]; intro b hb'; exact hbt2 b hb'
       simp only [hbs1, hbs2, ok_bind, pure_eq, hall1, hall2, dassertM_true]
+
+
+/-! ### ExpandMask -/
+
+/-- the one property of an extendable-output function the equality below uses: asking for fewer bytes gives a prefix -/
+def OraclePrefix (O : Oracles) : Prop := ∀ x n k, k ≤ n → (O.h x n).take k = O.h x k
+
+/-- **`expand_mask` is FIPS 204 Algorithm 34 (`ExpandMask`) as written** while the 16-bit counter has room
+    (the crate squeezes 640 bytes and unpacks the first `32 c`; the standard asks for `32 c` bytes) -/
+theorem expandMask_is_algorithm_34 (m : Mode) (O : Oracles) (hO : OracleOk O) (hP : OraclePrefix O) (p : ParamSet) (blz : Nat) (cfg : SigCfg p blz)
+    (rho : List Nat) (mu : Nat) (hmu : mu + p.l ≤ 65536) (hl : p.l ≤ 65535) :
+    expandMask m O p rho (mu : Int) = .ok (Spec.expandMask O.h blz p.gamma1 p.l rho mu) := by
+  obtain ⟨ys, hys, _, _⟩ := expandMask_ok m O hO p blz cfg rho mu (by omega) hl
+  rw [hys]
+  congr 1
+  unfold Spec.expandMask
+  obtain ⟨bl0, h0, hbz, h1, hpow, hz1, hz2, hg1, hg2, hz3⟩ := gamma1_facts m p blz cfg
+  unfold expandMask at hys
+  rw [arith_i32 _ _ _ (by omega) (by omega), ok_bind, h0, ok_bind] at hys
+  simp only [] at hys
+  have hc : 1 + bl0 = blz := by omega
+  rw [hc, dassert_dec m _ _ (by rcases hz3 with h | h <;> simp [h]), ok_bind, if_neg (by omega)] at hys
+  obtain ⟨ys', hm, hrest⟩ := bind_ok_inv hys
+  rw [mapM_eq_map _ (fun r => Spec.bitUnpack blz p.gamma1 (O.h (rho ++ [(mu + r) % 256, (mu + r) / 256 % 256]) (32 * blz)))] at hm
+  · have e := ok_inj hm
+    subst e
+    obtain ⟨_, _, hfin⟩ := bind_ok_inv hrest
+    rw [pure_eq] at hfin
+    exact (ok_inj hfin).symm
+  · intro r hr
+    have hr' : r < p.l := List.mem_range.mp hr
+    have hn : arith .u16 m "hashing.rs:expand_mask:mu+r" ((mu : Int) + Int.ofNat r) = .ok ((mu : Int) + Int.ofNat r) :=
+      arith_ok _ _ _ _ (by simp only [IT.lo]; have : (0:Int) ≤ Int.ofNat r := Int.natCast_nonneg _; omega)
+        (by simp only [IT.hi]; have : Int.ofNat r < p.l := Int.ofNat_lt.mpr hr'; omega)
+    rw [hn, ok_bind]
+    have ecast : (mu : Int) + Int.ofNat r = ((mu + r : Nat) : Int) := by simp
+    have hb : mu + r < 65536 := by omega
+    have key : ∀ n : Nat, n < 65536 → (((n : Int) % 256).toNat = n % 256 ∧ ((n : Int) / 256).toNat = n / 256 % 256) := by
+      intro n hn'
+      have : n / 256 < 256 := by omega
+      constructor <;> omega
+    have e1 : (((mu : Int) + Int.ofNat r) % 256).toNat = (mu + r) % 256 := by rw [ecast]; exact (key _ hb).1
+    have e2 : (((mu : Int) + Int.ofNat r) / 256).toNat = (mu + r) / 256 % 256 := by rw [ecast]; exact (key _ hb).2
+    rw [e1, e2]
+    have hvl := hO.hlen (rho ++ [(mu + r) % 256, (mu + r) / 256 % 256]) 640
+    have hsl := slice_ok "hashing.rs:expand_mask:v[0..32*c]"
+      (O.h (rho ++ [(mu + r) % 256, (mu + r) / 256 % 256]) 640) 0 (32 * blz) (by constructor <;> omega)
+    rw [hsl, ok_bind]
+    simp only [List.drop_zero, Nat.sub_zero]
+    rw [hP _ 640 (32 * blz) (by omega)]
+    have hg2' : 2 ≤ p.gamma1 := by rcases cfg.g1 with ⟨h, _⟩ | ⟨h, _⟩ <;> omega
+    have hw := bitUnpack_exact_is_spec m (O.h (rho ++ [(mu + r) % 256, (mu + r) / 256 % 256]) (32 * blz)) (p.gamma1 - 1) p.gamma1 blz
+      (by omega) (by omega) h1 (by omega) hpow (hO.hbyte _ _) (hO.hlen _ _)
+    rw [hw, ok_bind]
+    rfl
 
 end Fips204.Impl
